@@ -43,7 +43,34 @@ def obligations(tier):
             obs.append(Ob('hist:k%d:%s' % (k, '-'.join(map(str, pre)) or 'all'), 'hist', {'k': k, 'pre': list(pre)},
                           timeout=1800, path_timeout=60, twin=(pre in ((), (0,), (0, 0))), functions=FUNCS,
                           bounds='%d operations, %d fixed' % (k, len(pre)), weight=1.0 if k < 5 else 0.5))
+    # the order in which objects were exported must not matter: every ordered selection of k paths, then optionally one
+    # of them unexported and exported again
+    for k in ((4, 5) if tier == 'quick' else (4, 5, 6)):
+        for first in range(len(POOL)):
+            obs.append(Ob('order:k%d:first%d' % (k, first), 'order', {'k': k, 'pre': [first]}, timeout=900, path_timeout=60,
+                          twin=(first == 0), functions=FUNCS,
+                          bounds='%d exports of distinct paths in every order (first fixed), then one path (symbolic) '
+                                 'unexported and exported again; queries after every operation' % k))
     return obs
+
+
+def _ordered(first, k, idx):
+    """idx-th ordered selection of k distinct pool indexes starting with `first`."""
+    rest = [i for i in range(len(POOL)) if i != first]
+    out = [first]
+    for pos in range(k - 1):
+        n = len(rest)
+        out.append(rest.pop(idx % n))
+        idx //= n
+    return out
+
+
+def _n_ordered(k):
+    n, total = len(POOL) - 1, 1
+    for pos in range(k - 1):
+        total *= n
+        n -= 1
+    return total
 
 
 _world = {}
@@ -117,7 +144,7 @@ def build(family, p):
             run(ops)
         reached()
 
-    def run(ops):
+    def run(ops, query_after=None):
         conn = W['Conn']()
         handler = objects.DBusObjectHandler(conn)
         exported = set()
@@ -155,8 +182,9 @@ def build(family, p):
                     check(r._messageType == 3 and r.error_name == 'org.freedesktop.DBus.Error.UnknownObject',
                           'GetManagedObjects on a path that is not exported must answer UnknownObject')
 
-        query_all()          # queries may leave state behind (caches): ask before, between and after the operations
-        for op in ops:
+        if query_after is None:
+            query_all()      # queries may leave state behind (caches): ask before, between and after the operations
+        for opi, op in enumerate(ops):
             path = POOL[op % len(POOL)]
             n0 = len(conn.sent)
             if op < len(POOL):
@@ -175,7 +203,24 @@ def build(family, p):
                       'unexport must announce InterfacesRemoved')
                 check(sigs[0].body[0] == path and sorted(sigs[0].body[1]) == sorted(IFACES),
                       'InterfacesRemoved must name the object path and its interfaces')
-            query_all()
+            if query_after is None or opi in query_after:
+                query_all()
+    if family == 'order':
+        total = _n_ordered(k)
+
+        def ho(code):
+            idx, j = decode_choice(code, [total, k + 1])
+            message.DBusMessage._nextSerial = 1
+            with notrace():
+                sel = _ordered(pre[0], k, idx)
+                ops = list(sel)
+                if j < k:
+                    ops += [len(POOL) + sel[j], sel[j]]
+                run(ops, query_after={k - 1, len(ops) - 1})
+            reached()
+        ho.__name__ = 'order'
+        return Spec(ho, [('code', int)], witnesses=[(0,), (total * (k + 1) - 1,), (encode_choice([total // 2, 1], [total, k + 1]),),
+                                                   (encode_choice([total // 3, k], [total, k + 1]),)])
     h.__name__ = 'hist'
     base = [(2, 3, 4, 1), (1, 2, 8, 3), (0, 5, 6, 2), (4, 10, 4, 2), (3, 2, 9, 0)]
     wit = [(encode_choice(list(w[:nfree]), [NOPS] * nfree),) for w in base]
